@@ -78,8 +78,12 @@ def bounded_oracle(ix: Index, scn: dict) -> list[Violation]:
     return out
 
 
-def classified_oracle(ix: Index) -> list[Violation]:
+def classified_oracle(ix: Index, scn: dict | None = None) -> list[Violation]:
     out: list[Violation] = []
+    names = None
+    if scn is not None and "device" in scn:
+        dv = scn["device"]
+        names = {dv.get("noise_name", dv.get("name", "simdev")), dv.get("hello", {}).get("name", dv.get("name", "simdev"))}
     for op in ix.ops:
         if op.s1 is None or op.ok or op.do in HARNESS_STEPS or op.do.startswith("conn.new"):
             continue
@@ -93,6 +97,9 @@ def classified_oracle(ix: Index) -> list[Violation]:
             continue
         if not err.get("api"):
             out.append(Violation("unclassified", f"{op.do}:{err.get('cls')}", f"{op.actor}[{op.i}] {op.do} raised {err.get('cls')}: {err.get('text')}"))
+        elif err.get("cls") == "BadNameAPIError" and names is not None and err.get("received_name") not in names:
+            # whatever else happened in that turn (a cancellation, a close): a bad-name error names the device that answered
+            out.append(Violation("bad-name-payload", repr(err.get("received_name")), f"{op.actor}[{op.i}] {op.do} raised BadNameAPIError carrying {err.get('received_name')!r}, the device announced {sorted(names)}"))
     return out
 
 
@@ -344,6 +351,23 @@ class C09(CheckBase):
         r = idx % 4
         if r == 0:
             base = gen_c08_base(rng)
+            if idx % 24 == 0:
+                # always present: an encrypted device announcing another name than the expected one, with a caller
+                # cancellation swept over every turn (the error the caller gets still names the device that answered)
+                if "noise_psk" not in base["client"]:
+                    import base64 as _b64
+
+                    psk = _b64.b64encode(bytes(rng.getrandbits(8) for _ in range(32))).decode()
+                    base["client"]["noise_psk"] = psk
+                    base["device"].update({"transport": "noise", "psk": psk, "eph_seed": "%x" % rng.getrandbits(32)})
+                base["device"].pop("noise_hello_name", None)
+                make_rejecting(base, rng, kind="name")
+                yield base
+                T0 = run_scenario(base).turns
+                for n in range(1, T0 + 1):
+                    for phase in ("pre", "post"):
+                        yield with_cause(base, "cancel", {"turn": n}, phase, rng)
+                return
             if idx % 3 == 0:
                 # the attempt is refused by a verdict of the library itself; every cause is swept over its turns too
                 make_rejecting(base, rng)
@@ -388,7 +412,7 @@ class C09(CheckBase):
 
     def oracle(self, run: Any, scn: dict) -> list[Violation]:
         ix = Index(run.history)
-        return bounded_oracle(ix, scn) + classified_oracle(ix) + first_cause_oracle(ix)
+        return bounded_oracle(ix, scn) + classified_oracle(ix, scn) + first_cause_oracle(ix)
 
 
 CHECK = C09()
